@@ -37,6 +37,10 @@ type c06Case struct {
 	// StallFor before the packet is on the wire.
 	StallFor time.Duration
 	StallIdx int
+	// LateReturn: the LateIdx-th multicast write returns LateFor after the packet
+	// is on the wire (the send token is still held, nothing is stamped yet).
+	LateFor time.Duration
+	LateIdx int
 	// Fail: the FailIdx-th multicast write (0 = the initial RA) fails with an
 	// error of kind FailKind (a full transmit queue, as the socket reports it).
 	FailKind string
@@ -294,6 +298,22 @@ func c06Run(t *testing.T, r *vlib.Run, c *c06Case) {
 				}
 			}
 		}
+		if c.LateFor > 0 {
+			h.connSetup = func(cn *vfake.Conn) {
+				k := 0
+				cn.ReturnLatencyOf = func(_ int, dst netip.Addr) time.Duration {
+					if !dst.IsMulticast() {
+						return 0
+					}
+					k++
+					if k-1 == c.LateIdx {
+						h.tr.Add(vfake.Event{Kind: "late_return", Val: int64(c.LateFor)})
+						return c.LateFor
+					}
+					return 0
+				}
+			}
+		}
 		if c.FailKind != "" {
 			h.connSetup = func(cn *vfake.Conn) {
 				if cn.Gen != 1 {
@@ -384,6 +404,12 @@ func c06Run(t *testing.T, r *vlib.Run, c *c06Case) {
 			return
 		}
 		c06StallCheck(r, c, ev)
+		r.Nontrivial(c.ID)
+		return
+	}
+	if c.LateFor > 0 {
+		c06StallCheck(r, c, ev) // spacing of the packets on the wire
+		c06LateCheck(r, c, ev)
 		r.Nontrivial(c.ID)
 		return
 	}
@@ -523,6 +549,7 @@ func TestVerifC06(t *testing.T) {
 
 	if r.Part == "det" {
 		c06StallFamily(r, run)
+		c06LateFamily(r, run)
 	}
 
 	// Random long bursty histories, both tick regimes, with and without a
@@ -583,6 +610,64 @@ func c06StallFamily(r *vlib.Run, run func(c *c06Case)) {
 						Evs: []c06Ev{{At: base + o1}, {At: base + o1 + o2, Unicast: j%3 == 2}}, Seed: time.Duration(i*31 + j)})
 				}
 			}
+		}
+	}
+}
+
+// c06LateFamily: a multicast transmission whose system call returns only some
+// time after the packet is on the wire, and a solicitation from :: that arrives
+// in between - after the only RA it could have counted on.  The intervals are
+// long (16 s at first, then 22-30 s), so nothing else answers it for a while.
+func c06LateFamily(r *vlib.Run, run func(c *c06Case)) {
+	for _, idx := range []int{1, 2} {
+		for _, lf := range []time.Duration{40 * vMs, 700 * vMs, 2500 * vMs} {
+			for fi, frac := range []int{1, 2, 9} {
+				// multicast write 1 (the first request, spaced behind the initial RA) is
+				// on the wire at 3 s, write 2 (after the first wait, capped at 16 s) at 16 s
+				wire := []time.Duration{0, 3 * time.Second, 16 * time.Second}[idx]
+				at := wire + lf*time.Duration(frac)/10
+				run(&c06Case{ID: fmt.Sprintf("latereturn/%d/%v/%d", idx, lf, fi), Min: 22 * time.Second, Max: 30 * time.Second, LateFor: lf, LateIdx: idx,
+					Evs: []c06Ev{{At: at}}, Seed: time.Duration(fi*17 + idx)})
+			}
+		}
+	}
+}
+
+// c06LateCheck: every solicitation from :: is followed by a multicast RA on
+// the wire within MIN_DELAY_BETWEEN_RAS of the moment the late call returned
+// (the spacing is counted from there), i.e. within 3 s + the return latency.
+func c06LateCheck(r *vlib.Run, c *c06Case, ev []vfake.Event) {
+	var wires []time.Duration
+	for _, e := range ev {
+		if e.Kind == "write_end" && e.Dst == vAllNodes.String() && e.Err == "" {
+			wires = append(wires, e.T)
+		}
+	}
+	late := false
+	for _, e := range ev {
+		if e.Kind == "late_return" {
+			late = true
+		}
+	}
+	if !late {
+		r.Count("late_return_not_reached", 1)
+		return
+	}
+	for _, e := range ev {
+		if e.Kind != "read_deliver" || e.Src != "::" {
+			continue
+		}
+		ok := false
+		for _, w := range wires {
+			if w > e.T && w <= e.T+vMinDelay+c.LateFor {
+				ok = true
+			}
+		}
+		r.Count("triggers_after_a_transmission_still_returning", 1)
+		if !ok {
+			r.Violation(c.ID, "trigger-unsatisfied", fmt.Sprintf("solicitation from :: at %v (after a multicast RA was on the wire, while its system call was still returning for %v) was not followed by a multicast RA within 3s + %v", e.T, c.LateFor, c.LateFor),
+				map[string]any{"case": c, "multicast_on_wire": fmt.Sprint(wires), "trace": vfake.Strings(vOnly(ev, "write_begin", "write_end", "late_return", "read_deliver", "cancel"), 60)})
+			return
 		}
 	}
 }
